@@ -5,6 +5,10 @@ HERE = os.path.dirname(os.path.dirname(os.path.abspath(__file__)))
 ALL = ["C%02d" % i for i in range(1, 21)]
 # id -> (technique, level text, level note, design ref)
 CHECKS = {
+ "C03": ("exhaustive single-fault enumeration on a scripted reference sender's stream against the real receiver in both roles (every bit position of the data segment, every token substitution/transposition/duplication/deletion, forged partial-collision trailers, basis edits)",
+         "for three file shapes and two receiver roles every one of the ~14k single-bit flips of the data segment, all token-level faults of 3 streams with the true trailer, forged trailers agreeing in k<16 bytes with the damaged data's checksum, and 6 third-party basis edits between signature generation and reconstruction run as real sessions; outcome must be (error and previous content kept) or (success and destination == source)",
+         "trusts refproto's encoding of the undamaged stream (validated by the control part); MD4 collisions are modelled (forged trailers), not found; thorough adds two-file sessions",
+         "DESIGN.md §5 C03"),
  "C12": ("exhaustive decision table executed against the real receiver in both roles with a scripted reference sender recording requested indices, plus explicit-state BFS over sync histories with wire taps",
          "all cells {missing, same, larger, smaller} x 5 mtime relations x content equal/different x {default,-c,-I,-cI} x {-t on/off} x non-regular destination types x 3 sibling positions x {client, daemon module} and BFS depth 3 (thorough 4) over edits and syncs with 5 option sets; the decoded request set of every real session must equal the reference rule, no-op syncs move no data, model successor states are validated against the real destination",
          "trusts the reference rule transcription and refproto's decoding of requests; history universe is 2 files",
